@@ -182,6 +182,8 @@ type vfResult struct {
 	Hash       uint64 // identity of the case for distinct counting (0 = not tracked)
 	Err        error
 	Skip       string // non-empty: case excluded (counted under Excluded[Skip]); not an evaluation
+	N          int64  // number of evaluations this case stands for (0 means 1)
+	LabelN     map[string]int64
 }
 
 func vfFailf(format string, a ...any) vfResult { return vfResult{Err: fmt.Errorf(format, a...)} }
@@ -194,9 +196,16 @@ func (s *vfStatsT) record(r vfResult, sample func() any) {
 		s.Excluded[r.Skip]++
 		return
 	}
-	s.Evaluations++
+	if r.N > 0 {
+		s.Evaluations += r.N
+	} else {
+		s.Evaluations++
+	}
 	for _, l := range r.Labels {
 		s.Labels[l]++
+	}
+	for l, n := range r.LabelN {
+		s.Labels[l] += n
 	}
 	if !r.Nontrivial {
 		return
